@@ -1,7 +1,7 @@
 (* C16 — the hand model's decision functions equal the definitions regenerated from utils.go / async_producer.go /
    produce_set.go by decgen (coq/Gen/DecC16.v; every check regenerates them from the source and compares with that golden). *)
 From Coq Require Import List ZArith Bool String.
-From SV Require Import Gen.GoInt Gen.DecTypes Gen.DecC16 C16.Model.
+From SV Require Import Gen.GoInt Gen.DecTypes Gen.DecTypes2 Gen.DecC16 Gen.DecC01 C16.Model.
 Import ListNotations.
 Open Scope Z_scope.
 
@@ -94,4 +94,78 @@ Proof.
   - destruct (_ >? _); cbn [fst snd]; split; intro H; try reflexivity; discriminate.
   - destruct (m_has_headers m); [cbn [fst snd]; split; intro H; discriminate|].
     destruct (_ >? _); cbn [fst snd]; split; intro H; try reflexivity; discriminate.
+Qed.
+
+(* ================================================================ the loop's own lines *)
+(* `if Flush.Frequency > 0 && bp.timer == nil { bp.timer = time.After(...) }` after an add: the model's new armed flag *)
+Lemma tie_arm_timer : forall f armed,
+  (armed || (f >? 0)) =
+  armed || match fst (DecC16.arm_flush_timer f armed) with [] => false | _ => true end.
+Proof.
+  intros f armed. unfold DecC16.arm_flush_timer. cbv zeta. cbn [fst].
+  destruct armed; [reflexivity|]. cbn [negb orb]. rewrite andb_true_r. destruct (f >? 0); reflexivity.
+Qed.
+
+(* the bottom of every pass of the loop: the model's recompute *)
+Lemma tie_enable_output : forall c s o,
+  b_out (recompute c s) =
+  is_some (fst (DecC16.enable_output o (b_fired s) (s_bytes (b_buf s)) (s_count (b_buf s))
+                  (c_flush_frequency c) (c_flush_bytes c) (c_flush_messages c))).
+Proof.
+  intros c s o. unfold recompute, DecC16.enable_output. cbv zeta. cbn [b_out fst].
+  rewrite tie_ready_to_flush. destruct (b_fired s || _); reflexivity.
+Qed.
+
+(* rollOver *)
+Lemma tie_roll_over : forall s t f,
+  let '(t', f', acts) := DecC16.roll_over t f in
+  b_armed (Model.roll_over s) = is_some t' /\ b_fired (Model.roll_over s) = f' /\
+  b_buf (Model.roll_over s) = empty_set /\ acts = [BP_new_buffer] /\
+  b_out (Model.roll_over s) = b_out s /\ b_pending (Model.roll_over s) = b_pending s.
+Proof. intros s t f. cbn. repeat split; reflexivity. Qed.
+
+(* waitForSpace after a response was handled: needsRetry first, then the overflow test (decgen group C01) *)
+Definition retry_flag (closing cur : gerr) : bool := negb (gerr_eqb (DecC01.needs_retry closing cur) ENil).
+
+Lemma tie_wait_recheck : forall c s m drops closing cur, b_pending s = Some m ->
+  let s' := handle_response s drops in
+  step c s (EvResponse drops (retry_flag closing cur)) =
+  match DecC01.wait_for_space_recheck false closing cur (would_overflow c (b_buf s') m) with
+  | ExReturn ENil => do_add c s' m                      (* waitForSpace returns nil: the message is added *)
+  | ExReturn _ => (set_pending s' None, [Retried m])    (* returns the reason: retryMessage; continue *)
+  | _ => (s', [])                                       (* keeps waiting *)
+  end.
+Proof.
+  intros c s m drops closing cur Hp. cbv zeta. cbn [step]. rewrite Hp.
+  unfold retry_flag, DecC01.wait_for_space_recheck. cbv zeta.
+  destruct (gerr_eqb (needs_retry closing cur) ENil) eqn:E; cbn [negb].
+  - rewrite andb_true_r. destruct (would_overflow c (b_buf (handle_response s drops)) m); reflexivity.
+  - destruct (needs_retry closing cur) eqn:En; try reflexivity.
+    cbn in E. discriminate.
+Qed.
+
+(* a message arriving at the worker: the model's needs_retry flag is "bounced or stray chaser" of the input
+   classification (decgen group C01); syn markers are bookkeeping and are not events of the model *)
+Definition input_retry_flag (flags : Z) (closing cur : gerr) : bool :=
+  retry_flag closing cur || (Z.land flags 2 =? 2).
+
+Lemma tie_input_class : forall flags closing cur nilmap, Z.land flags 1 =? 1 = false ->
+  (input_retry_flag flags closing cur = false <->
+   snd (DecC01.bp_input_class flags closing cur nilmap) = ExFall) /\
+  (input_retry_flag flags closing cur = true ->
+   snd (DecC01.bp_input_class flags closing cur nilmap) = ExContinue /\
+   exists e rest, fst (DecC01.bp_input_class flags closing cur nilmap) = BP_retry e :: rest).
+Proof.
+  intros flags closing cur nilmap Hsyn. unfold input_retry_flag, retry_flag, DecC01.bp_input_class. rewrite Hsyn. cbv zeta.
+  destruct (gerr_eqb (needs_retry closing cur) ENil) eqn:E; cbn [negb orb].
+  - destruct (Z.land flags 2 =? 2); cbn [fst snd]; split.
+    + split; intro H; discriminate.
+    + intros _. split; [reflexivity|]. eexists; eexists; reflexivity.
+    + split; reflexivity.
+    + intro H; discriminate.
+  - split.
+    + split; intro H; [discriminate|].
+      destruct (gerr_eqb closing ENil && (Z.land flags 2 =? 2)); cbn [snd] in H; discriminate.
+    + intros _. destruct (gerr_eqb closing ENil && (Z.land flags 2 =? 2)); cbn [fst snd];
+        (split; [reflexivity|]; eexists; eexists; reflexivity).
 Qed.
